@@ -2,16 +2,21 @@ package streams
 
 import (
 	"context"
+	"io"
+	"io/ioutil"
 	"net/http"
 	"net/http/httptest"
 	"net/url"
 	"strconv"
+	"strings"
 	"sync"
+	"sync/atomic"
 
 	"github.com/richiefi/rrrouter/caching"
 	"github.com/richiefi/rrrouter/config"
 	mets "github.com/richiefi/rrrouter/metrics"
 	"github.com/richiefi/rrrouter/proxy"
+	"github.com/richiefi/rrrouter/verifhook"
 
 	"rrverif/harness/hx"
 	"rrverif/harness/sysx"
@@ -24,6 +29,7 @@ import (
 func init() {
 	register("concget", concGetStream)
 	register("concroute", concRouteStream)
+	register("concrefresh", concRefreshStream)
 }
 
 // concget: per round, 8 goroutines call the public Cache.Get for one fresh key at the same moment;
@@ -121,4 +127,91 @@ func concRouteStream(g *hx.Gen, id int) hx.Case {
 		return []string{hx.I(perf.n), hx.I(perf.bad)}
 	})
 	return hx.Case{Stream: "concroute", ID: id, In: []string{hx.X(dest)}, Impl: impl}
+}
+
+// concrefresh: one goroutine refreshes an entry over and over (the entry expires, a revalidating
+// writer stores the next version - another length, another validator - through <name>.tmp and
+// rename) while 6 goroutines read it as plain hits (Cache.Get with skipRevalidate, then the body
+// through the descriptor they were handed, as server.sendBody does). A hit must be ONE stored
+// response: the validator in its metadata, its Size and its bytes belong to the same version
+// (C07). Output: refreshes done, hits read, hits whose parts belong to different versions.
+func concRefreshStream(g *hx.Gen, id int) hx.Case {
+	rounds := 1200
+	impl := hx.Guard(func() []string {
+		w := theWorld()
+		verifhook.SetClock(func() int64 { return w.NowUnix() })
+		defer verifhook.SetClock(nil)
+		req := httptest.NewRequest("GET", "http://h1.test/c/refresh"+strconv.Itoa(id), nil)
+		keys := caching.KeysFromRequest(req)
+		body := func(v int) []byte {
+			return []byte("refresh-body-v" + strconv.Itoa(v) + "-" + strings.Repeat("x", 10+v%7*13))
+		}
+		ctx := func() context.Context {
+			return context.WithValue(context.Background(), "metrics", mets.NewMetrics("x", nil, nil))
+		}
+		store := func(v int) bool {
+			cr, _, err := w.Cache.Get(ctx(), "c1", 0, false, keys, httptest.NewRecorder(), sysx.Logger)
+			if err != nil || cr.Writer == nil {
+				return false
+			}
+			h := cr.Writer.Header()
+			h.Set("Cache-Control", "max-age=100")
+			h.Set("ETag", "\"v"+strconv.Itoa(v)+"\"")
+			h.Set("Content-Length", strconv.Itoa(len(body(v))))
+			cr.Writer.WriteHeader(200)
+			cr.Writer.Write(body(v))
+			if c, ok := cr.Writer.(io.Closer); ok {
+				c.Close()
+			}
+			w.Cache.Finish(keys[0], sysx.Logger)
+			return true
+		}
+		if !store(1) {
+			return []string{"err:first-fill"}
+		}
+		var stop int32
+		var hits, torn int64
+		var wg sync.WaitGroup
+		for i := 0; i < 6; i++ {
+			wg.Add(1)
+			go func() {
+				defer wg.Done()
+				for atomic.LoadInt32(&stop) == 0 {
+					cr, _, err := w.Cache.Get(ctx(), "c1", 0, true, keys, httptest.NewRecorder(), sysx.Logger)
+					if err != nil || cr.Kind != caching.Found || cr.Reader == nil {
+						if cr.Reader != nil {
+							cr.Reader.Close()
+						}
+						continue
+					}
+					b, _ := ioutil.ReadAll(io.LimitReader(cr.Reader, cr.Metadata.Size))
+					cr.Reader.Close()
+					v, _ := strconv.Atoi(strings.Trim(cr.Metadata.Header.Get("Etag"), "\"v"))
+					atomic.AddInt64(&hits, 1)
+					if string(b) != string(body(v)) {
+						atomic.AddInt64(&torn, 1)
+					}
+				}
+			}()
+		}
+		done := 0
+		for v := 2; v < 2+rounds; v++ {
+			w.Advance(1000) // the entry expires: the next Get without skipRevalidate revalidates
+			if store(v) {
+				done++
+			}
+		}
+		atomic.StoreInt32(&stop, 1)
+		wg.Wait()
+		w.Quiesce()
+		t := atomic.LoadInt64(&torn)
+		label := "0"
+		if t > 0 {
+			label = "1"
+		}
+		_ = hits
+		// the numbers of refreshes and hits depend on the machine; only "any torn hit" is compared
+		return []string{label}
+	})
+	return hx.Case{Stream: "concrefresh", ID: id, In: []string{hx.I(rounds)}, Impl: impl}
 }
